@@ -12,7 +12,9 @@ import (
 
 // detProps lists, per engine, the properties whose runs are used by the determinism self-test.
 var detProps = map[string][]string{
-	"store-sim": {"C04"},
+	"store-sim": {"C04", "C05"},
+	"merge-sim": {"C25"},
+	"query-sim": {"C11", "C30", "C31"},
 }
 
 // selftest runs (1) the differential test of simfs against the real kernel and (2) the
@@ -55,7 +57,11 @@ func selftest(verifDir, tier string, seed int64) int {
 			var ref map[int]uint64
 			for _, gmp := range []string{"1", "4", "16"} {
 				os.Setenv("VERIF_GOMAXPROCS", gmp)
-				res := runWorkers(bin, scratch, id, "quick", seed, 4, tierCfg{Runs: seeds, BudgetS: 600, MinS: 1}, filepath.Join(verifDir, "known_findings.json"), true)
+				n := seeds
+				if id == "C25" && tier != "thorough" {
+					n = 16 // heavy runs (complete days); the thorough tier uses the full sample
+				}
+				res := runWorkers(bin, scratch, id, "quick", seed, 8, tierCfg{Runs: n, BudgetS: 600, MinS: 1}, filepath.Join(verifDir, "known_findings.json"), true)
 				os.Unsetenv("VERIF_GOMAXPROCS")
 				got := map[int]uint64{}
 				for _, r := range res {
